@@ -226,7 +226,7 @@ def handleShim (op : String) (args : List String) (impl : Option (List String)) 
   match op, args with
   | "fwdmax", _ =>
     -- raw requests whose reply is just below / at / just above the 16 MiB framing bound: relayed
-    -- byte for byte, respectively an error; the statement allows one outcome
+    -- byte for byte (above the bound an error is in order too); the statement allows one outcome
     some ⟨["ok"], impl.map fun out =>
       match out with
       | ["ok"] => "ok"
